@@ -24,6 +24,7 @@ statement by statement; the Python subset — file loops, loops over lists of in
 block above `_LOOP_LEAN_TYPES`).
 """
 import ast
+import copy
 import os
 import re
 
@@ -275,6 +276,36 @@ KERNELS = [
     #     ignores a metainfo (C08_unknown_key_irrelevant): a key the code starts reading breaks the obligation
     dict(name='validateKeys', kind='keys', file='torf/_torrent.py', func='Torrent.validate'),
     dict(name='readStreamKeys', kind='keys', file='torf/_torrent.py', func='Torrent.read_stream'),
+    # --- loop kernels, third batch (C16): methods of an object whose state is ONE list of integers (`state=(source text,
+    #     name)`: `self._items` is the extra first parameter; see `_StateFn`): the de-duplicating core of MonitoredList.
+    #     An item is an integer (its identity after coercion: `self._coerce` is the identity here); the change callback
+    #     (`skip`) is an effect outside the returned value.  `returns='state'`: the result is the new `_items`.
+    dict(name='mlFilterFn', kind='loop', file='torf/_utils.py', func='MonitoredList._filter_func',
+         params=[('self_items', 'Ints'), ('item', 'Int')], state=('self._items', 'self_items'), ret='OptInt'),
+    dict(name='mlInsertFn', kind='loop', file='torf/_utils.py', func='MonitoredList.insert',
+         params=[('self_items', 'Ints'), ('index', 'Int'), ('value', 'Int')], state=('self._items', 'self_items'),
+         identity=('self._coerce',), skip=('if self._callback is not None:\n    self._callback(self)',),
+         calls={'self._filter_func': 'mlFilterFn'}, returns='state', ret='Ints'),
+    dict(name='mlSetItemFn', kind='loop', file='torf/_utils.py', func='MonitoredList.__setitem__',
+         params=[('self_items', 'Ints'), ('index', 'Int'), ('value', 'Int')], state=('self._items', 'self_items'),
+         identity=('self._coerce',), skip=('if self._callback is not None:\n    self._callback(self)',),
+         not_a_slice=('index',), calls={'self._filter_func': 'mlFilterFn'}, returns='state', ret='Ints'),
+    #     the same two methods on a `URLs` object (the only MonitoredList subclass C16 is about): `self._filter_func` is
+    #     the override `URLs._filter_func`, which also looks at `self._get_known_urls()` — the URLs of the whole
+    #     `Trackers` object, a second (read-only) list of integers `known` (`lists=`: expression text → parameter)
+    dict(name='urlsFilterFn', kind='loop', file='torf/_utils.py', func='URLs._filter_func',
+         params=[('self_items', 'Ints'), ('known', 'Ints'), ('url', 'Int')], state=('self._items', 'self_items'),
+         lists={'self._get_known_urls()': 'known'}, ret='OptInt'),
+    dict(name='urlsInsertFn', kind='loop', file='torf/_utils.py', func='MonitoredList.insert',
+         params=[('self_items', 'Ints'), ('known', 'Ints'), ('index', 'Int'), ('value', 'Int')],
+         state=('self._items', 'self_items'), lists={'self._get_known_urls()': 'known'},
+         identity=('self._coerce',), skip=('if self._callback is not None:\n    self._callback(self)',),
+         calls={'self._filter_func': 'urlsFilterFn'}, returns='state', ret='Ints'),
+    dict(name='urlsSetItemFn', kind='loop', file='torf/_utils.py', func='MonitoredList.__setitem__',
+         params=[('self_items', 'Ints'), ('known', 'Ints'), ('index', 'Int'), ('value', 'Int')],
+         state=('self._items', 'self_items'), lists={'self._get_known_urls()': 'known'},
+         identity=('self._coerce',), skip=('if self._callback is not None:\n    self._callback(self)',),
+         not_a_slice=('index',), calls={'self._filter_func': 'urlsFilterFn'}, returns='state', ret='Ints'),
 ]
 
 
@@ -1407,6 +1438,290 @@ def translate_loop(repo, k):
     try:
         return _LoopFn(k, tree).translate()
     except (AttributeError, IndexError, KeyError, TypeError) as e:      # an AST shape nobody thought of: not an alarm
+        raise CannotTranslate(f'loop translator: {e!r}')
+
+
+# =====================================================================================================================
+# loop kernels, third batch: methods of an object whose state is ONE list of integers (kernel key `state=(source text of
+# the attribute, name)`, e.g. `('self._items', 'self_items')`).  The attribute becomes a local list of integers that is
+# the extra parameter `<name>` of the generated function (a real list: append / remove / `==` are allowed on it); a
+# callee named in `calls` that declares the same parameter is handed the *current* value.  There is no list of files:
+# the generated functions have no `sizes` parameter.  Further kernel keys:
+#     lists={'self._get_known_urls()': 'known'}   an expression (compared as text) that is a second, read-only list of
+#                                        integers of the object: the declared parameter `known` (only `in` / `len` / a loop)
+#     identity=('self._coerce',)        `self._coerce(e)` is `e` (an item is its identity after coercion)
+#     skip=('<statement text>',)         statements (compared with ast.unparse) that are effects outside the returned
+#                                        value (the change callback) are dropped, like the message strings are
+#     not_a_slice=('index',)             `isinstance(index, slice)` is False: of `if isinstance(index, slice): A else: B`
+#                                        only B is translated (the kernel is the integer-index branch)
+#     returns='state'                    the function returns nothing; its result is the new value of the state list:
+#                                        falling off the end / a bare `return` is `.ret <name>`.  A translated
+#                                        `.raised "Exc"` then means: Exc is raised and the state list is UNCHANGED —
+#                                        checked: every statement that can raise (raise, assert, any subscript,
+#                                        `remove`, a callee that can raise) must come before the first statement that
+#                                        changes the state list, and before the loop that contains it
+#     ret='OptInt'                       `Option Int`: `return e` is `.ret (some e)`, `return None` / a bare `return` /
+#                                        falling off the end is `.ret none`
+# Additions to the `Ints` subset (any list of integers that is known to be a list):
+#     xs.insert(i, v)                                let xs : List Int := Torf.Loop.pyInsert xs i v       (Python's clamping)
+#     xs.clear()                                     let xs : List Int := []
+#     xs[e] = v                                      Out.bind (Out.ofOption (Torf.Loop.setIdx xs e v) "IndexError") fun xs => ⟦rest⟧
+#     x = self.other(…)   (other returns OptInt)     Out.bind (otherFn …) fun (x : Option Int) => ⟦rest⟧   (x may have been an Int)
+#     if x is not None: A else: B   (x : OptInt)     (match x with | some x => ⟦A; rest⟧ | none => ⟦B; rest⟧)   (x : Int in A)
+#     if self.other(…) is not None: A else: B        Out.bind (otherFn …) fun (r : Option Int) => if r.isSome then ⟦A; rest⟧ else ⟦B; rest⟧
+#     … is None                                      the same with the branches exchanged
+# =====================================================================================================================
+
+_LOOP_LEAN_TYPES['OptInt'] = 'Option Int'
+
+
+class _StateRewrite(ast.NodeTransformer):
+    def __init__(self, k):
+        self.k = k
+        self.src, self.name = k['state']
+
+    def visit_Attribute(self, n):
+        if ast.unparse(n) == self.src:
+            return ast.copy_location(ast.Name(id=self.name, ctx=n.ctx), n)
+        return self.generic_visit(n)
+
+    def visit_Call(self, n):
+        if ast.unparse(n) in self.k.get('lists', {}):          # a read-only list of the object: a parameter
+            return ast.copy_location(ast.Name(id=self.k['lists'][ast.unparse(n)], ctx=ast.Load()), n)
+        if ast.unparse(n.func) in self.k.get('identity', ()) and len(n.args) == 1 and not n.keywords \
+                and not isinstance(n.args[0], ast.Starred):
+            return self.visit(n.args[0])
+        if (ast.unparse(n.func) == 'isinstance' and len(n.args) == 2 and not n.keywords
+                and isinstance(n.args[0], ast.Name) and n.args[0].id in self.k.get('not_a_slice', ())
+                and ast.unparse(n.args[1]) == 'slice'):
+            return ast.copy_location(ast.Constant(value=False), n)
+        return self.generic_visit(n)
+
+    def stmts(self, body):
+        out = []
+        for st in body:
+            if ast.unparse(st) in self.k.get('skip', ()):
+                continue
+            st = self.visit(st)
+            if isinstance(st, ast.If) and isinstance(st.test, ast.Constant) and st.test.value is False:
+                out += st.orelse
+            else:
+                out.append(st)
+        return out or [ast.Pass()]
+
+    def generic_visit(self, n):
+        for f in ('body', 'orelse', 'finalbody'):
+            if isinstance(getattr(n, f, None), list) and not isinstance(n, ast.IfExp):
+                setattr(n, f, self.stmts(getattr(n, f)) if (getattr(n, f) or f == 'body') else [])
+        for f, v in ast.iter_fields(n):
+            if f in ('body', 'orelse', 'finalbody') and isinstance(v, list):
+                continue
+            if isinstance(v, list):
+                setattr(n, f, [self.visit(x) if isinstance(x, ast.AST) else x for x in v])
+            elif isinstance(v, ast.AST):
+                setattr(n, f, self.visit(v))
+        return n
+
+
+class _StateFn(_LoopFn):
+    def __init__(self, k, tree):
+        super().__init__(k, tree)
+        self.state = k['state'][1]
+        if set(k.get('lists', {}).values()) & self.all_names:
+            raise CannotTranslate('name clash with a read-only list parameter')
+        if self.state in self.all_names or not any(p == self.state and t == 'Ints' for p, t in k['params']):
+            raise CannotTranslate(f'state list {self.state}: name clash / not a declared list parameter')
+        self.fn = _StateRewrite(k).visit(copy.deepcopy(self.fn))
+        ast.fix_missing_locations(self.fn)
+        self.all_names = {n.id for n in ast.walk(self.fn) if isinstance(n, ast.Name)} | \
+                         {a.arg for a in ast.walk(self.fn) if isinstance(a, ast.arg)}
+        self.maybe_tuple = self.maybe_tuple - {self.state}
+        self.returns_state = k.get('returns') == 'state'
+        if self.returns_state and self.ret != 'Ints':
+            raise CannotTranslate("returns='state' needs ret='Ints'")
+
+    # ---- the callee reads the caller's current state; no `sizes` ---------------------------------------------------
+    def call(self, n, env, loop):
+        term, typ = super().call(n, env, loop)
+        name = self.calls[ast.unparse(n.func)]
+        if not term.startswith(f'({name} sizes'):
+            raise CannotTranslate('call term')
+        return f'({name}' + term[len(f'({name} sizes'):], typ
+
+    def callee_total(self, n):
+        """the translated callee has no `.raised` / IndexError path at all"""
+        callee = _loop_kernel_by_name(self.calls[ast.unparse(n.func)])
+        if not callee.get('state'):
+            return False
+        txt = _StateFn(callee, self.tree).translate()
+        return 'raised' not in txt and 'ofOption' not in txt and 'Out.bind' not in txt
+
+    def check_raises_precede_changes(self):
+        parent = {}
+        for n in ast.walk(self.fn):
+            for c in ast.iter_child_nodes(n):
+                parent[c] = n
+
+        def anchor(n):
+            line, m = n.lineno, n
+            while m in parent:
+                m = parent[m]
+                if isinstance(m, (ast.For, ast.While)):
+                    line = m.lineno
+            return line
+        changes, raises = [], []
+        for n in ast.walk(self.fn):
+            if isinstance(n, ast.Call) and isinstance(n.func, ast.Attribute) and isinstance(n.func.value, ast.Name) \
+                    and n.func.value.id == self.state:
+                changes.append(anchor(n))
+                if n.func.attr == 'remove':
+                    raises.append(n.lineno)
+            elif isinstance(n, ast.Call) and isinstance(n.func, ast.Attribute) and n.func.attr == 'remove':
+                raises.append(n.lineno)
+            if isinstance(n, ast.Name) and n.id == self.state and not isinstance(n.ctx, ast.Load):
+                changes.append(anchor(n))
+            if isinstance(n, ast.Subscript):
+                raises.append(n.lineno)
+                if isinstance(n.value, ast.Name) and n.value.id == self.state and not isinstance(n.ctx, ast.Load):
+                    changes.append(anchor(n))
+            if isinstance(n, (ast.Raise, ast.Assert, ast.Try)):
+                raises.append(n.lineno)
+            if isinstance(n, ast.Call) and ast.unparse(n.func) in self.calls and not self.callee_total(n):
+                raises.append(n.lineno)
+        if changes and raises and max(raises) >= min(changes):
+            raise CannotTranslate('a statement that can raise does not precede every change of the state list')
+
+    # ---- types -------------------------------------------------------------------------------------------------
+    def bind(self, env, name, typ):
+        if {env.get(name, typ), typ} == {'Int', 'OptInt'}:      # `value = self._filter_func(value)`: shadowed in Lean
+            env = {n: t for n, t in env.items() if n != name}
+        return super().bind(env, name, typ)
+
+    def ret_term(self, v, env, loop):
+        if self.returns_state:
+            if v is None or (isinstance(v, ast.Constant) and v.value is None):
+                return f'.ret {self.state}'
+            raise CannotTranslate('a value is returned by a function whose result is its state list')
+        if self.ret == 'OptInt':
+            if v is None or (isinstance(v, ast.Constant) and v.value is None):
+                return '.ret none'
+            if isinstance(v, ast.Name) and env.get(v.id) == 'OptInt':
+                return f'.ret {v.id}'
+            return f'.ret (some {self.ex(env, loop).int_(v)})'
+        return super().ret_term(v, env, loop)
+
+    @staticmethod
+    def none_test(t):
+        """(operand, True for `is not None` / False for `is None`) or None"""
+        if isinstance(t, ast.UnaryOp) and isinstance(t.op, ast.Not):
+            r = _StateFn.none_test(t.operand)
+            return None if r is None else (r[0], not r[1])
+        if (isinstance(t, ast.Compare) and len(t.ops) == 1 and isinstance(t.ops[0], (ast.Is, ast.IsNot))
+                and isinstance(t.comparators[0], ast.Constant) and t.comparators[0].value is None):
+            return t.left, isinstance(t.ops[0], ast.IsNot)
+        return None
+
+    def block(self, stmts, env, k, loop):
+        if not stmts:
+            return k(env)
+        s, rest = stmts[0], stmts[1:]
+
+        def cont(e):
+            return self.block(rest, e, k, loop)
+
+        def is_list(x):
+            return isinstance(x, ast.Name) and env.get(x.id) == 'Ints' and x.id not in self.maybe_tuple
+
+        if isinstance(s, ast.Return) and s.value is None:
+            return self.ret_term(None, env, loop).split('\n')
+        if isinstance(s, ast.Assign) and len(s.targets) == 1:
+            tg, v = s.targets[0], s.value
+            if (isinstance(tg, ast.Name) and isinstance(v, ast.Call) and ast.unparse(v.func) in self.calls
+                    and _loop_kernel_by_name(self.calls[ast.unparse(v.func)])['ret'] == 'OptInt'):
+                term, _ = self.call(v, env, loop)
+                e2 = self.bind(env, tg.id, 'OptInt')
+                return [f'Torf.Loop.Out.bind {term} (fun ({tg.id} : Option Int) =>'] + self.ind(self._close(cont(e2)))
+            if (isinstance(tg, ast.Subscript) and is_list(tg.value) and not isinstance(tg.slice, (ast.Slice, ast.Tuple))
+                    and (loop is None or tg.value.id != self.state)):
+                x, e = tg.value.id, self.ex(env, loop)
+                return [f'Torf.Loop.Out.bind (Torf.Loop.Out.ofOption (Torf.Loop.setIdx {x} {e.int_(tg.slice)} '
+                        f'{e.int_(v)}) "IndexError") (fun ({x} : List Int) =>'] + self.ind(self._close(cont(env)))
+        if isinstance(s, ast.Expr) and isinstance(s.value, ast.Call):
+            c = s.value
+            if isinstance(c.func, ast.Attribute) and is_list(c.func.value) and not c.keywords:
+                x = c.func.value.id
+                if c.func.attr == 'insert' and len(c.args) == 2:
+                    e = self.ex(env, loop)
+                    return [f'let {x} : List Int := Torf.Loop.pyInsert {x} {e.int_(c.args[0])} {e.int_(c.args[1])}'] + cont(env)
+                if c.func.attr == 'clear' and not c.args:
+                    return [f'let {x} : List Int := []'] + cont(env)
+        if isinstance(s, ast.If):
+            nt = self.none_test(s.test)
+            if nt is not None:
+                left, positive = nt
+                some_b, none_b = (s.body, s.orelse) if positive else (s.orelse, s.body)
+                if isinstance(left, ast.Name) and env.get(left.id) == 'OptInt':
+                    x = left.id
+                    e_some = {n: ('Int' if n == x else t) for n, t in env.items()}
+                    return [f'(match {x} with', f'| some {x} =>'] + self.ind(self.block(some_b, e_some, cont, loop)) + \
+                        ['| none =>'] + self.ind(self._close(self.block(none_b, env, cont, loop)))
+                if (isinstance(left, ast.Call) and ast.unparse(left.func) in self.calls
+                        and _loop_kernel_by_name(self.calls[ast.unparse(left.func)])['ret'] == 'OptInt'):
+                    r = 'filtered'
+                    if r in (self.all_names | set(env)):
+                        raise CannotTranslate(f'name {r} is in use')
+                    term, _ = self.call(left, env, loop)
+                    return [f'Torf.Loop.Out.bind {term} (fun ({r} : Option Int) =>', f'  if Option.isSome {r} then'] + \
+                        self.ind(self.block(some_b, env, cont, loop), 2) + ['  else'] + \
+                        self.ind(self._close(self.block(none_b, env, cont, loop)), 2)
+                raise CannotTranslate(f'None test {ast.unparse(s.test)}')
+        return super().block(stmts, env, k, loop)
+
+    def translate(self):
+        sig = _signature_args(self.fn)
+        env = {}
+        for p, t in self.k['params']:
+            if t not in ('Int', 'Bool', 'Ints'):
+                raise CannotTranslate(f'parameter type {t}')
+            env[_loop_ident(p)] = t
+        for a in sig:
+            if a not in env:
+                if a not in self.k.get('ignore', ()):
+                    raise CannotTranslate(f'argument {a} of the function is not declared')
+                env[a] = 'Opaque'
+        for p in env:
+            if p not in sig and p != self.state and p not in self.k.get('lists', {}).values():
+                raise CannotTranslate(f'declared parameter {p} is neither an argument nor the state list')
+        if self.returns_state:
+            self.check_raises_precede_changes()
+
+        def falls_through(e):
+            if self.returns_state:
+                return [f'.ret {self.state}']
+            if self.ret == 'OptInt':
+                return ['.ret none']
+            raise CannotTranslate('function body can fall through (implicit `return None`)')
+
+        body = self.block(list(self.fn.body), env, falls_through, None)
+        txt = '\n'.join(self.aux + body)
+        if re.search(r'\bsizes\b', txt):
+            raise CannotTranslate('a list of files is used in a state kernel')
+        psig = ' '.join(f'({p} : {_LOOP_LEAN_TYPES[t]})' for p, t in self.k['params'])
+        main = '\n'.join(['set_option linter.unusedVariables false in',
+                          f'def {self.name} {psig} : Torf.Loop.Out ({_LOOP_LEAN_TYPES[self.ret]}) :='] + self.ind(body))
+        return '\n'.join(self.aux + [main])
+
+
+_translate_loop_files = translate_loop
+
+
+def translate_loop(repo, k):        # noqa: F811 — dispatch on the kernel's `state` key; the older kernels go the old way
+    if not k.get('state'):
+        return _translate_loop_files(repo, k)
+    tree = ast.parse(open(os.path.join(repo, k['file'])).read())
+    try:
+        return _StateFn(k, tree).translate()
+    except (AttributeError, IndexError, KeyError, TypeError) as e:
         raise CannotTranslate(f'loop translator: {e!r}')
 
 
